@@ -174,6 +174,7 @@ impl Check for C03 {
                 // (c) untyped, 1-3 arguments over one environment
                 let mut cfg = TypeCfg::default();
                 cfg.odd_labels = e.ratio(1, 4);
+                cfg.wide_table = true;
                 let tr: Triple = match gen_triple(&mut e, &cfg) {
                     Some(t) => t,
                     None => return Outcome::Skip("uninhabited-type"),
@@ -202,9 +203,21 @@ impl Check for C03 {
                 }
                 let cenv = rtype::env_to_candid(&tr.env);
                 let ctys: Vec<_> = tys.iter().map(rtype::to_candid).collect();
+                // half of the cases hand the encoder what a user might write instead of the
+                // canonical value (a nat where an int is expected, null for an absent option,
+                // vec nat8 spelled element by element); the bytes must be the same
+                let user_form = e.bool();
+                let mut used: Vec<&'static str> = vec![];
                 let args = IDLArgs {
-                    args: roots.iter().zip(&vals).map(|(r, v)| to_idl(&g, *r, v, &ById)).collect(),
+                    args: roots
+                        .iter()
+                        .zip(&vals)
+                        .map(|(r, v)| if user_form { crate::checks::c10::to_user_form(&g, *r, v, &ById, &mut e, &mut used) } else { to_idl(&g, *r, v, &ById) })
+                        .collect(),
                 };
+                for u in used {
+                    ctx.class(u);
+                }
                 let bytes = match guard(|| args.to_bytes_with_types(&cenv, &ctys)) {
                     Ok(Ok(b)) => b,
                     Ok(Err(err)) => return Outcome::Fail(Failure::new("untyped:encode-fails", format!("{err:?}\n{}", tr.describe()))),
